@@ -96,9 +96,9 @@ structure Hist.le (H H' : Hist) : Prop where
   proposal : ∀ a h r v, H.proposal a h r v → H'.proposal a h r v
   prevote : ∀ a h r v, H.prevote a h r v → H'.prevote a h r v
   precommit : ∀ a h r v, H.precommit a h r v → H'.precommit a h r v
-  decision : ∀ a h v, H.decision a h v → H'.decision a h v
+  decision : ∀ a h r v, H.decision a h r v → H'.decision a h r v
 
-theorem Hist.le_refl (H : Hist) : H.le H := ⟨fun _ _ _ _ x => x, fun _ _ _ _ x => x, fun _ _ _ _ x => x, fun _ _ _ x => x⟩
+theorem Hist.le_refl (H : Hist) : H.le H := ⟨fun _ _ _ _ x => x, fun _ _ _ _ x => x, fun _ _ _ _ x => x, fun _ _ _ _ x => x⟩
 
 theorem Polka_mono (E : AEnv) {H H' : Hist} (hle : H.le H') {h r v} (hp : Polka E H h r v) :
     Polka E H' h r v := by
@@ -119,13 +119,13 @@ theorem PCQuorum_mono (E : AEnv) {H H' : Hist} (hle : H.le H') {h r v} (hp : PCQ
   | inr hv => exact Or.inr (hle.precommit _ _ _ _ hv)
 
 theorem le_addProposal (H : Hist) (p h r v) : H.le (addProposal H p h r v) :=
-  ⟨fun _ _ _ _ x => Or.inl x, fun _ _ _ _ x => x, fun _ _ _ _ x => x, fun _ _ _ x => x⟩
+  ⟨fun _ _ _ _ x => Or.inl x, fun _ _ _ _ x => x, fun _ _ _ _ x => x, fun _ _ _ _ x => x⟩
 theorem le_addPrevote (H : Hist) (p h r v) : H.le (addPrevote H p h r v) :=
-  ⟨fun _ _ _ _ x => x, fun _ _ _ _ x => Or.inl x, fun _ _ _ _ x => x, fun _ _ _ x => x⟩
+  ⟨fun _ _ _ _ x => x, fun _ _ _ _ x => Or.inl x, fun _ _ _ _ x => x, fun _ _ _ _ x => x⟩
 theorem le_addPrecommit (H : Hist) (p h r v) : H.le (addPrecommit H p h r v) :=
-  ⟨fun _ _ _ _ x => x, fun _ _ _ _ x => x, fun _ _ _ _ x => Or.inl x, fun _ _ _ x => x⟩
-theorem le_addDecision (H : Hist) (p h v) : H.le (addDecision H p h v) :=
-  ⟨fun _ _ _ _ x => x, fun _ _ _ _ x => x, fun _ _ _ _ x => x, fun _ _ _ x => Or.inl x⟩
+  ⟨fun _ _ _ _ x => x, fun _ _ _ _ x => x, fun _ _ _ _ x => Or.inl x, fun _ _ _ _ x => x⟩
+theorem le_addDecision (H : Hist) (p h r v) : H.le (addDecision H p h r v) :=
+  ⟨fun _ _ _ _ x => x, fun _ _ _ _ x => x, fun _ _ _ _ x => x, fun _ _ _ _ x => Or.inl x⟩
 
 /-! ## the per-process invariant -/
 
@@ -156,7 +156,7 @@ structure PInv (E : AEnv) (s : Sys) (p : Addr) : Prop where
   lock : LockInv E s.hist p (s.loc p)
   unlock : ∀ h r r' v v', s.hist.prevote p h r' (some v') → s.hist.precommit p h r (some v) →
     r < r' → v ≠ v' → ∃ vr, r ≤ vr ∧ vr < r' ∧ Polka E s.hist h vr v'
-  decided : ∀ h v, s.hist.decision p h v → ∃ r, PCQuorum E s.hist h r v ∧ E.valid v = true ∧
+  decided : ∀ h r v, s.hist.decision p h r v → PCQuorum E s.hist h r v ∧ E.valid v = true ∧
     (E.byz (E.proposer h r) ∨ s.hist.proposal (E.proposer h r) h r v)
 
 def Inv (E : AEnv) (s : Sys) : Prop := ∀ p, ¬ E.byz p → PInv E s p
@@ -180,7 +180,7 @@ theorem PInv_frame (E : AEnv) {s s' : Sys} {q : Addr} (hle : s.hist.le s'.hist)
     (hloc : s'.loc q = s.loc q)
     (hpv : ∀ h r id, s'.hist.prevote q h r id → s.hist.prevote q h r id)
     (hpc : ∀ h r id, s'.hist.precommit q h r id → s.hist.precommit q h r id)
-    (hdec : ∀ h v, s'.hist.decision q h v → s.hist.decision q h v)
+    (hdec : ∀ h r v, s'.hist.decision q h r v → s.hist.decision q h r v)
     (hi : PInv E s q) : PInv E s' q := by
   constructor
   · rw [hloc]; exact hi.round_nonneg
@@ -193,9 +193,9 @@ theorem PInv_frame (E : AEnv) {s s' : Sys} {q : Addr} (hle : s.hist.le s'.hist)
   · intro h r r' v v' hx hy hlt hne
     obtain ⟨vr, a, b, c⟩ := hi.unlock h r r' v v' (hpv _ _ _ hx) (hpc _ _ _ hy) hlt hne
     exact ⟨vr, a, b, Polka_mono E hle c⟩
-  · intro h v hx
-    obtain ⟨r, a, b, c⟩ := hi.decided h v (hdec _ _ hx)
-    refine ⟨r, PCQuorum_mono E hle a, b, ?_⟩
+  · intro h r v hx
+    obtain ⟨a, b, c⟩ := hi.decided h r v (hdec _ _ _ hx)
+    refine ⟨PCQuorum_mono E hle a, b, ?_⟩
     cases c with
     | inl cb => exact Or.inl cb
     | inr cp => exact Or.inr (hle.proposal _ _ _ _ cp)
@@ -231,12 +231,12 @@ theorem no_conflicting_polka (E : AEnv) (wf : E.WF) (s : Sys) (hinv : Inv E s)
       exact ih vr h1 (by omega) v' hne h3
 
 theorem agreement_of_inv (E : AEnv) (wf : E.WF) (s : Sys) (hinv : Inv E s)
-    (p p' : Addr) (hp : ¬ E.byz p) (hp' : ¬ E.byz p') (h : Height) (v v' : Val)
-    (hd : s.hist.decision p h v) (hd' : s.hist.decision p' h v') : v = v' := by
+    (p p' : Addr) (hp : ¬ E.byz p) (hp' : ¬ E.byz p') (h : Height) (r r' : Round) (v v' : Val)
+    (hd : s.hist.decision p h r v) (hd' : s.hist.decision p' h r' v') : v = v' := by
   apply Classical.byContradiction
   intro hne
-  obtain ⟨r, hq, _, _⟩ := (hinv p hp).decided h v hd
-  obtain ⟨r', hq', _, _⟩ := (hinv p' hp').decided h v' hd'
+  obtain ⟨hq, _, _⟩ := (hinv p hp).decided h r v hd
+  obtain ⟨hq', _, _⟩ := (hinv p' hp').decided h r' v' hd'
   -- a quorum of precommits contains a correct validator, who has seen a polka
   have polkaOf : ∀ r v, PCQuorum E s.hist h r v → Polka E s.hist h r v := by
     intro r v hq
@@ -262,7 +262,7 @@ theorem inv_init (E : AEnv) (h0 : Addr → Height) : Inv E (Sys.init h0) := by
   · intro h r v hx; exact hx.elim
   · exact Or.inl ⟨rfl, rfl, fun r v hx => hx⟩
   · intro h r r' v v' hx; exact hx.elim
-  · intro h v hx; exact hx.elim
+  · intro h r v hx; exact hx.elim
 
 theorem inv_start (E : AEnv) (s : Sys) (p : Addr) (l : LState) (r : Round)
     (hl : s.loc p = l) (hs : l.started = false) (hr : 0 ≤ r) (hi : PInv E s p) :
@@ -390,9 +390,9 @@ theorem inv_prevote (E : AEnv) (s : Sys) (p : Addr) (l : LState) (id : Option Va
             intro hh; have := d hh; rw [hst] at this; cases this
           omega
         · exact ⟨vr, by omega, y, Polka_mono E hle z⟩
-  · intro h v hx
-    obtain ⟨r, a, b, c⟩ := hi.decided h v hx
-    exact ⟨r, PCQuorum_mono E hle a, b, c⟩
+  · intro h r v hx
+    obtain ⟨a, b, c⟩ := hi.decided h r v hx
+    exact ⟨PCQuorum_mono E hle a, b, c⟩
 
 
 /-- an old precommit at the current height is from an earlier round when step = prevote -/
@@ -457,9 +457,9 @@ theorem inv_precommit_gen (E : AEnv) (s : Sys) (p : Addr) (l' : LState) (id : Op
       have := hi.pv_below _ _ _ hx
       simp only [BelowPV] at this
       rcases this with a | ⟨_, _, c | ⟨c, _⟩⟩ <;> omega
-  · intro h v hx
-    obtain ⟨r, a, b, c⟩ := hi.decided h v hx
-    exact ⟨r, PCQuorum_mono E hle a, b, c⟩
+  · intro h r v hx
+    obtain ⟨a, b, c⟩ := hi.decided h r v hx
+    exact ⟨PCQuorum_mono E hle a, b, c⟩
 
 theorem inv_precommitNil (E : AEnv) (s : Sys) (p : Addr) (l : LState)
     (hl : s.loc p = l) (hs : l.started = true) (hst : l.step = .prevote) (hi : PInv E s p) :
@@ -501,9 +501,9 @@ theorem inv_commit (E : AEnv) (s : Sys) (p : Addr) (l : LState) (r : Round) (v :
     (hl : s.loc p = l) (hq : PCQuorum E s.hist l.height r v) (hv : E.valid v = true)
     (hp : E.byz (E.proposer l.height r) ∨ s.hist.proposal (E.proposer l.height r) l.height r v)
     (hi : PInv E s p) :
-    PInv E ⟨addDecision s.hist p l.height v, setLoc s p (initL (l.height + 1))⟩ p := by
+    PInv E ⟨addDecision s.hist p l.height r v, setLoc s p (initL (l.height + 1))⟩ p := by
   subst hl
-  have hle := le_addDecision s.hist p (s.loc p).height v
+  have hle := le_addDecision s.hist p (s.loc p).height r v
   constructor
   · simp [setLoc_same, initL]
   · intro h r0 id0 hx
@@ -526,11 +526,11 @@ theorem inv_commit (E : AEnv) (s : Sys) (p : Addr) (l : LState) (r : Round) (v :
   · intro h r0 r' w w' hx hy hlt hne
     obtain ⟨vr, a, b, c⟩ := hi.unlock h r0 r' w w' hx hy hlt hne
     exact ⟨vr, a, b, Polka_mono E hle c⟩
-  · intro h w hx
-    rcases hx with hx | ⟨_, rfl, rfl⟩
-    · obtain ⟨r1, a, b, c⟩ := hi.decided h w hx
-      exact ⟨r1, PCQuorum_mono E hle a, b, c⟩
-    · exact ⟨r, PCQuorum_mono E hle hq, hv, hp⟩
+  · intro h r1 w hx
+    rcases hx with hx | ⟨_, rfl, rfl, rfl⟩
+    · obtain ⟨a, b, c⟩ := hi.decided h r1 w hx
+      exact ⟨PCQuorum_mono E hle a, b, c⟩
+    · exact ⟨PCQuorum_mono E hle hq, hv, hp⟩
 
 
 /-- other processes keep their invariant when `p` moves -/
@@ -538,7 +538,7 @@ theorem inv_other (E : AEnv) (s : Sys) (H' : Hist) (p q : Addr) (l' : LState) (h
     (hle : s.hist.le H')
     (hpv : ∀ h r id, H'.prevote q h r id → s.hist.prevote q h r id)
     (hpc : ∀ h r id, H'.precommit q h r id → s.hist.precommit q h r id)
-    (hdec : ∀ h v, H'.decision q h v → s.hist.decision q h v)
+    (hdec : ∀ h r v, H'.decision q h r v → s.hist.decision q h r v)
     (hi : PInv E s q) : PInv E ⟨H', setLoc s p l'⟩ q :=
   PInv_frame E (s' := ⟨H', setLoc s p l'⟩) hle (setLoc_other s p l' q hq) hpv hpc hdec hi
 
@@ -549,18 +549,18 @@ theorem inv_step (E : AEnv) (s s' : Sys) (hstep : Step E s s') (hinv : Inv E s) 
   | start p l r hb hl hs hr =>
     by_cases hqp : q = p
     · subst hqp; exact inv_start E s q l r hl hs hr hiq
-    · exact inv_other E s s.hist p q _ hqp (Hist.le_refl _) (fun _ _ _ x => x) (fun _ _ _ x => x) (fun _ _ x => x) hiq
+    · exact inv_other E s s.hist p q _ hqp (Hist.le_refl _) (fun _ _ _ x => x) (fun _ _ _ x => x) (fun _ _ _ x => x) hiq
   | newRound p l r' hb hl hs hr =>
     by_cases hqp : q = p
     · subst hqp; exact inv_newRound E s q l r' hl hs hr hiq
-    · exact inv_other E s s.hist p q _ hqp (Hist.le_refl _) (fun _ _ _ x => x) (fun _ _ _ x => x) (fun _ _ x => x) hiq
+    · exact inv_other E s s.hist p q _ hqp (Hist.le_refl _) (fun _ _ _ x => x) (fun _ _ _ x => x) (fun _ _ _ x => x) hiq
   | propose p l v hb hl =>
     exact PInv_frame E (s' := ⟨addProposal s.hist p l.height l.round v, s.loc⟩) (le_addProposal _ _ _ _ _) rfl
-      (fun _ _ _ x => x) (fun _ _ _ x => x) (fun _ _ x => x) hiq
+      (fun _ _ _ x => x) (fun _ _ _ x => x) (fun _ _ _ x => x) hiq
   | prevote p l id hb hl hs hst hg =>
     by_cases hqp : q = p
     · subst hqp; exact inv_prevote E s q l id hl hs hst hg hiq
-    · refine inv_other E s _ p q _ hqp (le_addPrevote _ _ _ _ _) ?_ (fun _ _ _ x => x) (fun _ _ x => x) hiq
+    · refine inv_other E s _ p q _ hqp (le_addPrevote _ _ _ _ _) ?_ (fun _ _ _ x => x) (fun _ _ _ x => x) hiq
       intro h r id' hx
       rcases hx with hx | ⟨a, _⟩
       · exact hx
@@ -568,7 +568,7 @@ theorem inv_step (E : AEnv) (s s' : Sys) (hstep : Step E s s') (hinv : Inv E s) 
   | precommitNil p l hb hl hs hst =>
     by_cases hqp : q = p
     · subst hqp; exact inv_precommitNil E s q l hl hs hst hiq
-    · refine inv_other E s _ p q _ hqp (le_addPrecommit _ _ _ _ _) (fun _ _ _ x => x) ?_ (fun _ _ x => x) hiq
+    · refine inv_other E s _ p q _ hqp (le_addPrecommit _ _ _ _ _) (fun _ _ _ x => x) ?_ (fun _ _ _ x => x) hiq
       intro h r id' hx
       rcases hx with hx | ⟨a, _⟩
       · exact hx
@@ -576,7 +576,7 @@ theorem inv_step (E : AEnv) (s s' : Sys) (hstep : Step E s s') (hinv : Inv E s) 
   | precommitValue p l v hb hl hs hst hg =>
     by_cases hqp : q = p
     · subst hqp; exact inv_precommitValue E s q l v hl hs hst hg hiq
-    · refine inv_other E s _ p q _ hqp (le_addPrecommit _ _ _ _ _) (fun _ _ _ x => x) ?_ (fun _ _ x => x) hiq
+    · refine inv_other E s _ p q _ hqp (le_addPrecommit _ _ _ _ _) (fun _ _ _ x => x) ?_ (fun _ _ _ x => x) hiq
       intro h r id' hx
       rcases hx with hx | ⟨a, _⟩
       · exact hx
@@ -584,8 +584,8 @@ theorem inv_step (E : AEnv) (s s' : Sys) (hstep : Step E s s') (hinv : Inv E s) 
   | commit p l r v hb hl hs hq hv hp =>
     by_cases hqp : q = p
     · subst hqp; exact inv_commit E s q l r v hl hq hv hp hiq
-    · refine inv_other E s _ p q _ hqp (le_addDecision _ _ _ _) (fun _ _ _ x => x) (fun _ _ _ x => x) ?_ hiq
-      intro h w hx
+    · refine inv_other E s _ p q _ hqp (le_addDecision _ _ _ _ _) (fun _ _ _ x => x) (fun _ _ _ x => x) ?_ hiq
+      intro h r1 w hx
       rcases hx with hx | ⟨a, _⟩
       · exact hx
       · exact (hqp a).elim
